@@ -20,9 +20,9 @@ CASES = {"deque": (12000, 3000), "lists": (10000, 3000), "arrays": (12000, 3000)
 
 
 def c14(tier):
-    # thorough = the quick workload with 8 different sequence families (salt); the number of processes, not the
+    # thorough = the quick workload with 12 different sequence families (salt); the number of processes, not the
     # size of one process, grows, so that the restart budget per process stays the same
-    salts = [0] if tier == "quick" else list(range(1, 9))
+    salts = [0] if tier == "quick" else list(range(1, 13))
     runs = []
     for salt in salts:
         for g, comps in GROUPS.items():
